@@ -89,6 +89,8 @@ def statements(pa: str, qa: str) -> List[str]:
         # an object its package re-exports (moves), named by where it is defined: found through the alias the move leaves behind (System.find_object)
         f'from {pa}2.core import Eng', f'from {pa}2.core import Eng as E2, stays', f'import {pa}2.core as xc0\nZ13 = xc0.Eng', f'from {pa}2 import Eng as E3', f'import {pa}2\nZ14 = {pa}2.core.Eng',
         # uses of a name that the module AND the enclosing class bind (only importable in the nested-decoy scope)
+        # aliases of members reached through a class whose linearisation differs from a depth-first walk of its bases
+        f'from {pa}.c import Widget0\nZr0 = Widget0.render\nZo0 = Widget0.only_base', f'from {pa}.c import Page0 as Pg0\nZr1 = Pg0.render', f'import {pa}.c as cm0\nZr2 = cm0.Widget0.render',
         'Z15 = Dk', 'Z16 = Df\nclass Mine2(Dk):\n    "ID:Mine2"',
         f'from {pa}.emp import *', f'from {pa}.c import Widget0, Page0 as P0', f'import {pa}.c as dm', f'from {pa}.c import Widget0\nclass Mine(Widget0):\n    "ID:Mine"',
     ]
